@@ -13,7 +13,7 @@ BAD_CHAR_PREDICATES = ("is_numeric", "is_alphanumeric", "is_alphabetic", "is_dig
 def run(chk, tier):
     P = Prog("default")
     chk.configs.add("default")
-    for r in (r_reader_shape, r_offset_bound, r_entry, r_writer, r_year_box, r_ascii, r_absint, r_flow):
+    for r in (r_reader_shape, r_offset_bound, r_entry, r_writer, r_year_box, r_ascii, r_absint, r_flow, r_own_ranges):
         chk.guarded(r, P, tier)
     chk.assume("that the accepted language equals the RFC 3339 grammar for every string, the values returned and the round trip are NOT decided; the grammar side is specs (appendix A.5)")
     return {
@@ -223,3 +223,17 @@ def r_flow(chk, P, tier):
         for name, ln, ok, dropped in rows:
             chk.expect(dropped == 0 and ok > 0, "%s: %s #%d" % (fn.split("::")[-1], name, [r_ for r_ in rows if r_[0] == name].index((name, ln, ok, dropped)) + 1),
                        "the value scanned by scan::%s (line %s) does not reach a Parsed setter on %d of %d successful paths" % (name, ln, dropped, ok + dropped), loc=P.loc(fn, ln))
+
+
+def r_own_ranges(chk, P, tier):
+    """range decisions on scanned values are made by the Parsed setters (checked in C14) and by the one bound the RFC gives; a reader that rejects a
+    scanned value on its own narrows the accepted language (and breaks the round trip for values the writer can produce)"""
+    from fmt_tables import own_value_rejections
+    chk.rule("ERR.own_ranges", "the readers reject a scanned VALUE on their own only where listed (strict RFC 3339: offset beyond 23:59 -> OUT_OF_RANGE); every other range decision is a Parsed setter's", floor=2)
+    allowed = {'format::parse::parse_rfc3339': {('OUT_OF_RANGE', 'timezone_offset')}}
+    for fn in ('format::parse::parse_rfc3339', 'format::parse::parse_rfc3339_relaxed'):
+        got = own_value_rejections(P, fn)
+        extra = got - allowed.get(fn, set())
+        missing = allowed.get(fn, set()) - got
+        chk.expect(not extra and not missing, fn.split("::")[-1], "%s rejects scanned values on its own: %s (allowed: %s)%s" % (fn, sorted(extra), sorted(allowed.get(fn, set())),
+                   "; expected rejection missing: %s" % sorted(missing) if missing else ""), loc=P.loc(fn))
